@@ -249,7 +249,7 @@ func dmInitCodes() {
 // dmGroupedKeys: every (code, vendor) a decoder could look up in this byte string (each AVP's data is scanned as if it
 // were grouped), reduced to those the table of the repository maps to Grouped.
 func dmGroupedKeys(data []byte, out map[[2]uint32]bool, depth int) {
-	for len(data) >= 8 && depth < 12 {
+	for len(data) >= 8 && depth < 200 {
 		code := uint32(data[0])<<24 | uint32(data[1])<<16 | uint32(data[2])<<8 | uint32(data[3])
 		n := int(data[5])<<16 | int(data[6])<<8 | int(data[7])
 		hs, vendor := 8, uint32(0)
